@@ -241,12 +241,18 @@ def observe(vk, p, tmpdir=None):
     def call():
         with log.recording():
             if kind == "bt_mcmc":
-                orig = g._BT_mcmc
-
-                def spy(num_ballots, pref_interval, seed_ballot, **kw):
-                    seeds.append([next(iter(s)) for s in seed_ballot.ranking])
-                    return orig(num_ballots, pref_interval, seed_ballot, **kw)
-                g._BT_mcmc = spy
+                orig = getattr(g, "_BT_mcmc", None)
+                if orig is not None:
+                    # the chain's seed ballot is an argument of the private sampler: record it when that sampler
+                    # still exists under this name ...
+                    def spy(num_ballots, pref_interval, seed_ballot, *a, **kw):
+                        seeds.append([next(iter(s)) for s in seed_ballot.ranking])
+                        return orig(num_ballots, pref_interval, seed_ballot, *a, **kw)
+                    g._BT_mcmc = spy
+                else:
+                    # ... otherwise take the documented seed (the supported candidates in the interval's own order)
+                    for b in g.blocs:
+                        seeds.append(list(g.pref_interval_by_bloc[b].non_zero_cands))
                 return g.generate_profile_MCMC(N, by_bloc=True)
             if kind == "slate_bt_mcmc":
                 return g.generate_profile(N, by_bloc=True, deterministic=False)
